@@ -21,7 +21,10 @@ import (
 // permutations (exhaustive for maps of <= 4 entries), plus twice under Go's
 // native randomised order.  Everything observable must be identical.
 
-type c19 struct{}
+type c19 struct {
+	nowSeen   int64
+	seamProbe bool
+}
 
 func newC19() Prop { return &c19{} }
 
@@ -452,6 +455,39 @@ func (p *c19) Run(c *verifsim.Chooser, st *Stats, render bool) *Outcome {
 	if what, det := ref.diff(again); what != "" {
 		o.violate("C19/unstable", what, "two executions under the same map order differ (addresses? hidden global state?): %s", det)
 		return o
+	}
+
+	if !p.seamProbe {
+		// is the clock seam alive?  now() is the one place where the pinned
+		// library reads the wall clock: it must follow the policy
+		p.seamProbe = true
+		probe := &c19Case{text: "return now();", opt: true, objs: []func() interface{}{func() interface{} { return nil }}}
+		a := p.execute(probe, &verifsim.OrderPolicy{Kind: verifsim.OrdAsc})
+		verifsim.SetTimePolicy(time.Hour)
+		b := p.execute(probe, &verifsim.OrderPolicy{Kind: verifsim.OrdAsc})
+		verifsim.SetTimePolicy(0)
+		if len(a.results) == 1 && len(b.results) == 1 && a.results[0] != b.results[0] {
+			st.probe("clock-seam-alive(now() follows the simulated clock)")
+		} else {
+			st.probe("clock-seam-not-observable(now() did not follow the simulated clock)")
+		}
+	}
+	// the same order under other wall clocks: the reference ran with a clock
+	// that stands still between instructions; now every reading of the clock
+	// by the library jumps it ahead (3 ms, then 1 s per reading)
+	for _, jump := range []time.Duration{3 * time.Millisecond, time.Second} {
+		verifsim.SetTimePolicy(jump)
+		obs := p.execute(cs, &verifsim.OrderPolicy{Kind: verifsim.OrdAsc})
+		verifsim.SetTimePolicy(0)
+		if what, det := ref.diff(obs); what != "" {
+			st.fault("clock-jumps")
+			o.violate("C19/clock-dependent", what, "with a wall clock that jumps %v ahead at every reading the %s differs from the one under a clock that stands still: %s", jump, what, det)
+			return o
+		}
+	}
+	if verifsim.NowCalls > p.nowSeen {
+		p.nowSeen = verifsim.NowCalls
+		st.fault("clock-jumps")
 	}
 
 	var pols []*verifsim.OrderPolicy
